@@ -16,6 +16,7 @@ var mergeProfiles = []gen.Profile{
 	gen.PDeep.With(func(p *gen.Profile) { p.Scalars = withoutNull(p.Scalars); p.PArr = 0.3 }),
 	gen.PHostile.With(func(p *gen.Profile) { p.Scalars = withoutNull(p.Scalars); p.PArr = 0.25 }),
 	gen.PNumbers,
+	gen.PSyntaxy.With(func(p *gen.Profile) { p.Scalars = withoutNull(p.Scalars) }),
 }
 
 func c11Case(c *mon.Ctx, aText, bText string, o OptSet) {
